@@ -181,6 +181,12 @@ def make_track(kind: str = "video", timescale: Optional[int] = None,
         'explicit-segment' tfhd base_data_offset = 0 and offsets relative to the moof start
                            (= position of the moof inside a segment that starts at the moof)
         'implicit'         neither flag (base = start of the enclosing moof per 14496-12 8.8.7)
+        'absolute'         classic absolute-file-offset addressing: tfhd base_data_offset = 0 (start of the
+                           file) and trun.data_offset / saio offset = absolute file position of the payload /
+                           of the first senc entry
+        'absolute-lead'    tfhd base_data_offset = absolute file position of the segment's first leading box
+                           (styp/sidx/emsg; = the moof position when there is none), offsets relative to it –
+                           a base in front of the moof
         'explicit-mdat'    tfhd base_data_offset = absolute file position of the first payload byte and a
                            trun *without* data_offset field (clear tracks only: saio offsets are unsigned)
     payload_size         average sample size in bytes (sizes are pseudo-random in [½, 1½]·payload_size)
@@ -200,7 +206,8 @@ def make_track(kind: str = "video", timescale: Optional[int] = None,
     assert len(kid) == 16 and iv_size in (8, 16)
     if base is None:
         base = "moof" if default_base_is_moof else "explicit"
-    assert base in ("moof", "explicit", "explicit-segment", "implicit", "explicit-mdat")
+    assert base in ("moof", "explicit", "explicit-segment", "implicit", "explicit-mdat", "absolute",
+                    "absolute-lead")
     if base == "explicit-mdat":
         assert not encrypted, "explicit-mdat addressing is only generated for clear tracks"
         trun_data_offset = False
@@ -257,7 +264,7 @@ def make_track(kind: str = "video", timescale: Optional[int] = None,
         tf_body = u32(track_id)
         if base == "moof":
             tf_flags |= 0x020000
-        elif base in ("explicit", "explicit-segment", "explicit-mdat"):
+        elif base in ("explicit", "explicit-segment", "explicit-mdat", "absolute", "absolute-lead"):
             tf_flags |= 0x000001
             tf_body += u64(0)                        # patched below
         if where == "tfhd":
@@ -347,8 +354,9 @@ def make_track(kind: str = "video", timescale: Optional[int] = None,
         lead += sidx + (b"" if emsg_first else emsgs)
         moof_pos = len(out) + len(lead)
         base_value = {"moof": moof_pos, "implicit": moof_pos, "explicit": moof_pos, "explicit-segment": 0,
-                      "explicit-mdat": moof_pos + moof_len + 8}[base]
-        rel = 0                                      # position of the moof relative to the base
+                      "explicit-mdat": moof_pos + moof_len + 8, "absolute": 0, "absolute-lead": len(out)}[base]
+        # position of the moof relative to the base
+        rel = moof_pos - base_value if base in ("absolute", "absolute-lead") else 0
         data_offset = rel + moof_len + 8
         saio_offset = rel + senc_at if encrypted else 0
         moof, _ = moof_box(base_value, data_offset, saio_offset)
@@ -423,7 +431,8 @@ def _selftest() -> int:
         dict(), dict(with_tfdt=False), dict(with_styp=True, with_sidx=True, with_emsg=2),
         dict(encrypted=True), dict(encrypted=True, iv_size=16, traf_order="senc_first", saio_version=1),
         dict(base="explicit"), dict(base="implicit", sample_durations_in="tfhd"),
-        dict(base="explicit-mdat"), dict(first_decode_time=2 ** 32 + 7, encrypted=True, with_sidx=True),
+        dict(base="explicit-mdat"), dict(base="absolute", encrypted=True, payload_size=600),
+        dict(base="absolute-lead", with_styp=True, with_sidx=True), dict(first_decode_time=2 ** 32 + 7, encrypted=True, with_sidx=True),
     ]
     with appboot.Clock("2024-01-01T00:00:00Z"):
         for i, kw in enumerate(variants):
